@@ -954,3 +954,31 @@ Example header_full_example :
   header_full_ok (gen_header_full false [117;56]%N [69]%N ex_ps [84;58;67;111;112;121]%N)
                  [117;56]%N [69]%N ex_ps [84;58;67;111;112;121]%N.
 Proof. apply header_full_on_enum. reflexivity. Qed.
+
+(* ------------------------------------------------------------------ one constant / arm per field-less variant, unconditionally *)
+
+(** with no hypothesis at all (not even that the expansion compiles): the constants - hence the `match` arms - are
+    exactly the field-less variants, each once, in declaration order; variants with fields get none *)
+Lemma gen_consts_variants paren : forall vs last inc,
+  map fst (gen_consts paren last inc vs) = filter fieldless vs.
+Proof.
+  induction vs as [|v vs IH]; intros last inc; cbn [gen_consts filter]; [reflexivity|].
+  destruct (fieldless v); cbn [map fst]; rewrite IH; reflexivity.
+Qed.
+
+Theorem consts_variants paren vs : map fst (consts paren vs) = filter fieldless vs.
+Proof. unfold consts. apply gen_consts_variants. Qed.
+
+Lemma eval_consts_fst t : forall cs tbl, eval_consts t cs = Some tbl -> map fst tbl = map fst cs.
+Proof.
+  induction cs as [|[v e] cs IH]; intros tbl H; cbn [eval_consts] in H.
+  - inversion H. reflexivity.
+  - destruct (eval t e) as [d|]; cbn [obind] in H; [|discriminate].
+    destruct (eval_consts t cs) as [tl|]; cbn [obind] in H; [|discriminate].
+    inversion H; subst. cbn [map fst]. rewrite (IH tl eq_refl). reflexivity.
+Qed.
+
+(** the arms of a compiling expansion, in order, are the field-less variants in declaration order *)
+Theorem arms_are_fieldless_in_order paren t vs tbl :
+  eval_consts t (consts paren vs) = Some tbl -> map fst tbl = filter fieldless vs.
+Proof. intros H. rewrite (eval_consts_fst _ _ _ H). apply consts_variants. Qed.
